@@ -7,7 +7,7 @@ use crate::rng::Rng;
 use serde_json::json;
 use tls_parser::*;
 
-pub const RULE: &str = "complete sweep of 25 states x 2 directions x {18 handshake kinds (ClientHello split by session-id presence), ChangeCipherSpec, all 65536 (level,description) alerts, application data, heartbeat}; plus 64 random payloads per non-alert kind and cell, the full cross product of meaningful field values of the hello / HelloRetryRequest / KeyUpdate / CertificateStatus / heartbeat messages per cell (15 versions x 8 session-id forms (absent; present with 0, 1, 32, 33, 255, 256, 70000 bytes) x 4 compressions x 13 cipher classes x 6 extension blocks x 5 randoms for ServerHello, similarly for the others), the documented flows as explicit sequences, BFS reachability from None and random walks in lock-step with the reference relation. distinct_nontrivial counts distinct (family, state, direction, kind class, outcome) tuples observed";
+pub const RULE: &str = "complete sweep of 25 states x 2 directions x {18 handshake kinds (ClientHello split by session-id presence), ChangeCipherSpec, all 65536 (level,description) alerts, application data, heartbeat}; plus 64 random payloads per non-alert kind and cell, the full cross product of meaningful field values of the hello / HelloRetryRequest / KeyUpdate / CertificateStatus / heartbeat messages per cell (15 versions x 8 session-id forms (absent; present with 0, 1, 32, 33, 255, 256, 70000 bytes) x 4 compressions x 13 cipher classes x 6 extension blocks x 5 randoms for ServerHello, similarly for the others; opaque fields of every kind with 0 .. 2^20 bytes incl. 65535 / 65536 / 65537), the documented flows as explicit sequences, BFS reachability from None and random walks in lock-step with the reference relation. distinct_nontrivial counts distinct (family, state, direction, kind class, outcome) tuples observed";
 pub const ASSUMPTIONS: &[&str] = &[
     "reference relation is DESIGN.md appendix A.1, written from the property text; cells the text leaves open (server-side CCS after ClientKeyExchange, CCS direction on resumption, HelloRequest from the client) carry an allowed set",
     "ClientHello with session_id = Some(empty slice) counts as 'session id present' (Option presence), although the parser never produces it",
@@ -536,6 +536,28 @@ pub fn run(ctx: &mut Ctx) {
             for (pl, payload) in [(0u16, &[][..]), (3, &[1, 2, 3][..]), (0xffff, &[1][..]), (16384, &[][..])] {
                 check(ctx, K::Heartbeat, &TlsMessage::Heartbeat(TlsMessageHeartbeat { heartbeat_type: TlsHeartbeatMessageType(b), payload_len: pl, payload }), &mut fhb);
             }
+        }
+        // opaque fields of every size class, including sizes no wire encoding can carry (constructed values)
+        let big = vec![0x42u8; 1 << 20];
+        let (mut fa, mut fhb2, mut ffin, mut fske, mut fcv, mut fcke, mut fnst, mut fcert, mut fsd, mut fcs2, mut fnp) = (None, None, None, None, None, None, None, None, None, None, None);
+        for n in [0usize, 1, 255, 256, 16384, 65535, 65536, 65537, 70000, 1 << 20] {
+            let b = &big[..n];
+            check(ctx, K::AppData, &TlsMessage::ApplicationData(TlsMessageApplicationData { blob: b }), &mut fa);
+            for pl in [0u16, 1, 0xffff] {
+                check(ctx, K::Heartbeat, &TlsMessage::Heartbeat(TlsMessageHeartbeat { heartbeat_type: TlsHeartbeatMessageType(1), payload_len: pl, payload: b }), &mut fhb2);
+            }
+            check(ctx, K::Finished, &TlsMessage::Handshake(H::Finished(b)), &mut ffin);
+            check(ctx, K::ServerKeyExchange, &TlsMessage::Handshake(H::ServerKeyExchange(TlsServerKeyExchangeContents { parameters: b })), &mut fske);
+            check(ctx, K::CertificateVerify, &TlsMessage::Handshake(H::CertificateVerify(b)), &mut fcv);
+            for form in 0..3 {
+                let c = match form { 0 => TlsClientKeyExchangeContents::Dh(b), 1 => TlsClientKeyExchangeContents::Ecdh(ECPoint { point: b }), _ => TlsClientKeyExchangeContents::Unknown(b) };
+                check(ctx, K::ClientKeyExchange, &TlsMessage::Handshake(H::ClientKeyExchange(c)), &mut fcke);
+            }
+            check(ctx, K::NewSessionTicket, &TlsMessage::Handshake(H::NewSessionTicket(TlsNewSessionTicketContent { ticket_lifetime_hint: n as u32, ticket: b })), &mut fnst);
+            check(ctx, K::Certificate, &TlsMessage::Handshake(H::Certificate(TlsCertificateContents { cert_chain: vec![RawCertificate { data: b }; (n % 3) + 1] })), &mut fcert);
+            check(ctx, K::ServerDone, &TlsMessage::Handshake(H::ServerDone(b)), &mut fsd);
+            check(ctx, K::CertificateStatus, &TlsMessage::Handshake(H::CertificateStatus(TlsCertificateStatusContents { status_type: 1, blob: b })), &mut fcs2);
+            check(ctx, K::NextProtocol, &TlsMessage::Handshake(H::NextProtocol(TlsNextProtocolContent { selected_protocol: b, padding: &big[..n.min(300)] })), &mut fnp);
         }
         ctx.evals(calls);
         ctx.add("matrix.calls", calls);
